@@ -224,7 +224,7 @@ func TestVerif_C08(t *testing.T) {
 		if len(res.Samples) < 4 && i%97 == 0 {
 			res.sample(map[string]interface{}{"flow_description": text, "uplink": uplink, "ue": ue, "filter": fmt.Sprintf("%+v", got)})
 		}
-		if res.nViol() > 300 {
+		if res.giveUp(300) {
 			break
 		}
 	}
@@ -562,7 +562,7 @@ func c08PFD(res *vResult) {
 		p.send(p.assocRelease(9999))
 		vWaitUntil(3*time.Second, func() bool { return a.conn(p.local) == nil })
 		p.close()
-		if res.nViol() > 300 {
+		if res.giveUp(300) {
 			break
 		}
 	}
